@@ -33,6 +33,9 @@ type TextRenderer struct {
 	Round     int32
 }
 
+// maxDigits bounds the rounding precision of a text table.
+const maxDigits = 100
+
 var (
 	green = color.New(color.FgGreen)
 	red   = color.New(color.FgRed)
@@ -40,6 +43,11 @@ var (
 
 // Render renders this table to a string.
 func (r *TextRenderer) Render(t *Table, w io.Writer) error {
+	if r.Round > maxDigits || r.Round < -maxDigits {
+		// every cell would be padded (or rounded away) to that many digits: refuse instead of
+		// running out of time and memory
+		return fmt.Errorf("invalid number of digits: %d (must be between %d and %d)", r.Round, -maxDigits, maxDigits)
+	}
 	r.table = t
 	color.NoColor = !r.Color
 
